@@ -13,6 +13,7 @@ RULE = ("one case = (method, direction, dense flag, event mix incl. simultaneous
         "direction; non-trivial = >=1 reported event; distinct by (method,direction,dense,event mix,seed)")
 ASSUMPTIONS = ["true roots with |dg/dt| below 5% of the function's scale (tangential) and pairs of true roots closer than the location tolerance are excluded",
                "root location tolerance in t: K*(dy*|s||grad h|/|dg/dt| + max(4eps(1+|t|), ulp(t))) with dy = node error + h^4 max|y''''|/384, K=10"]
+RULE += " Strata added in the fourth seeding round: State-dependent events whose root is bit-exactly a recorded row, with one-sided requests and sign-flipped twins."
 FLOORS = {"quick": {"events_checked": 150, "events_backward": 50, "events_nodense": 50, "steps_with_two_events": 3, "boundary_root_events": 6, "events_on_small_steps": 12, "events_on_tiny_steps": 4, "boundary_root_events_sharing_a_step": 30, "multileg_legs": 40, "multileg_events": 40, "events_on_a_call_boundary": 15, "events_of_extreme_scale": 20, "events_with_the_root_on_a_recorded_row_state_dependent": 25},
           "thorough": {"events_checked": 1500, "events_backward": 500, "events_nodense": 500, "steps_with_two_events": 30, "boundary_root_events": 60, "events_on_small_steps": 150, "events_on_tiny_steps": 20, "boundary_root_events_sharing_a_step": 150, "multileg_legs": 200, "multileg_events": 200, "events_on_a_call_boundary": 100, "events_of_extreme_scale": 100, "events_with_the_root_on_a_recorded_row_state_dependent": 100}}
 QUICK_METHODS = ["RK45CKSolver", "DOPRI45", "RK4Solver", "EulerSolver", "RK8713MSolver", "ABAs5o6HSolver", "SymplecticEulerSolver",
